@@ -22,7 +22,7 @@ import (
 // C04 — wire codecs round-trip, re-encode stably and keep request types apart.
 type c04 struct{ base }
 
-func init() { core.Register(c04{base{"C04", "exploration", 240, 6000}}) }
+func init() { core.Register(c04{base{"C04", "exploration", 1500, 40000}}) }
 
 func (c04) Describe() core.Description {
 	return core.Description{
